@@ -3,7 +3,7 @@
   `optimize` is the identity on canonical normal forms.
 -/
 import J2M.Proofs.Union
-namespace J2M
+namespace J2M.C08P
 
 /-! ### the canonical normal form -/
 
@@ -15,7 +15,7 @@ def litStable (c : LitCfg) (vs : List String) : Bool :=
 
 /-- the category `_optimize_union` puts a member into, numbered in the order of re-assembly:
     0 other, 1 object, 2 list, 3 dict, 4 str / pseudo-type, 5 string literal (moved last by `DUnion`) -/
-def Ty.cls : Ty → Nat
+def _root_.J2M.Ty.cls : Ty → Nat
   | .obj _ => 1 | .list _ => 2 | .dict _ => 3 | .str => 4 | .ser _ => 4 | .lit _ _ => 5
   | _ => 0
 
@@ -25,7 +25,7 @@ def canonOrder : List Ty → Bool
   | t :: ts => ts.all (fun u => decide (t.cls < u.cls) || (t.cls == 0 && u.cls == 0)) && canonOrder ts
 
 /-- `Optional[None]` -/
-def Ty.isOptNull : Ty → Bool | .opt .null => true | _ => false
+def _root_.J2M.Ty.isOptNull : Ty → Bool | .opt .null => true | _ => false
 
 mutual
 /--
@@ -392,4 +392,4 @@ theorem canon_decomp (ms : List Ty) (h : canonOrder ms = true) :
         · simp
         · exact Or.inr ⟨o, vs, rfl⟩
       | _ => simp [Ty.cls] at h0
-end J2M
+end J2M.C08P
